@@ -45,8 +45,13 @@ def binopV (op : BinOp) (a b : Val) : M Val :=
   | .lt => cmpV .lt a b | .le => cmpV .le a b | .eq => cmpV .eq a b
   | .ne => cmpV .ne a b | .gt => cmpV .gt a b | .ge => cmpV .ge a b
 
-/-- `add_guard(cond)` -/
-def addGuard (cond : Val) : M GuardBak := fun s =>
+/-- `if isinstance(cond, LinCombBool): cond = cond.lc` (first statement of `add_guard`) -/
+def unwrapBoolCond : Val → Val
+  | .lcb c => .lc c
+  | v => v
+
+/-- `add_guard(cond)` after the unwrapping of a boolean condition -/
+def addGuardCore (cond : Val) : M GuardBak := fun s =>
   let bak : GuardBak := ⟨s.guard, s.ignoreErrors, s.one⟩
   match cond with
   | .lc c =>
@@ -67,6 +72,9 @@ def addGuard (cond : Val) : M GuardBak := fun s =>
     else if c != 1 then .error .runtime
     else .ok (bak, s)
   | _ => .error .type
+
+/-- `add_guard(cond)` -/
+def addGuard (cond : Val) : M GuardBak := addGuardCore (unwrapBoolCond cond)
 
 structure RunSt where
   st : St
